@@ -1925,16 +1925,28 @@ insert_list:
         }
         if (!q.th || !cnt || !m_ooo_resume)
             return;
-        SCOPED_LOCK(q.lock);
-        for (auto th = q.th->next();
-                  th!= q.th && cnt;
-                  th = th->next()) {
-            SCOPED_LOCK(th->lock);
-            auto& c = th->semaphore_count;
-            if (c <= cnt) {
-                cnt -= c;
-                prelocked_thread_interrupt(th, -1);
+        // out-of-order mode: wake later waiters whose demand is covered.
+        // Waking a waiter (prelocked_thread_interrupt) takes q.lock by itself,
+        // and the other paths that dequeue a waiter (timeout, interrupt) take
+        // the thread's lock before q.lock; so pick a candidate under q.lock
+        // with try_lock only, and wake it after q.lock has been released.
+        while (cnt) {
+            thread* found = nullptr;
+            {
+                SCOPED_LOCK(q.lock);
+                if (!q.th) break;
+                for (auto th = q.th->next(); th != q.th; th = th->next()) {
+                    if (th->semaphore_count <= cnt &&
+                        th->lock.try_lock() == 0) {
+                        found = th;
+                        break;
+                    }
+                }
             }
+            if (!found) break;
+            cnt -= found->semaphore_count;
+            prelocked_thread_interrupt(found, -1);
+            found->lock.unlock();
         }
     }
     inline bool semaphore::try_subtract(uint64_t count) {
